@@ -34,3 +34,8 @@ ROT_UNITS = [
     R("rot_avl_left_right", "h_double", [], "pp_tree_avl_rotate_left_right", 5),
     R("rot_avl_right_left", "h_double", ["MIRROR"], "pp_tree_avl_rotate_right_left", 5),
 ]
+# two-step histories (observer, update, observer on the same tree object): state an operation leaves behind for the next one
+SEQ_UNITS = [T("%s_sequence" % tr, "h_sequence", tr, canaries=3, functions=["p_tree_lookup", "p_tree_insert", "p_tree_remove"] if tr == "bst" else [],
+               defines_quick=["H=2"], defines_thorough=["H=3"],
+               bound={"quick": "any well-formed %s tree of height <= 2 (<= 3 nodes), lookup / insert-or-remove / lookup with any two keys" % tr, "thorough": "height <= 3 (<= 7 nodes), same three-call history"})
+             for tr in ("bst", "rb", "avl")]
